@@ -216,6 +216,15 @@ func (p *Packet) SetAdaptationField(af *AdaptationField) error {
 		return gots.ErrNoAdaptationField
 	}
 	oldAF, _ := p.AdaptationField()
+	if af.Length() == 0 {
+		// a source field of length 0 has no flags byte (its byte 5 already is
+		// payload): the copy has no flag and no optional field set
+		if oldAF.Length() > 0 {
+			oldAF[5] = 0
+			oldAF.stuffAF()
+		}
+		return nil
+	}
 	if oldAF.stuffingEnd() < af.stuffingStart() {
 		return gots.ErrAdaptationFieldTooLarge
 	}
